@@ -515,13 +515,14 @@ func ruleCC2(c *Ctx) *rule {
 	for _, w := range t.workers {
 		fi := c.info(w)
 		for _, ve := range valueErrorCalls(w) {
-			// relevant only if the value result is used
-			if ve.val == nil || len(valueReferrers(ve.val)) == 0 {
+			// relevant if the value result is used, or if the call feeds the content hash (its data result is its side effect)
+			feeds := map[string]bool{"io.Copy": true, "io.CopyN": true, "io.CopyBuffer": true, "io.ReadAll": true, "io.ReadFull": true, "(*os.File).Read": true, "os.ReadFile": true}
+			if (ve.val == nil || len(valueReferrers(ve.val)) == 0) && !feeds[calleeName(ve.call.Common())] {
 				continue
 			}
 			key := fmt.Sprintf("%s err-of %s", fname(w), calleeName(ve.call.Common()))
 			if ve.err == nil || len(valueReferrers(ve.err)) == 0 {
-				r.bad(key, c.ipos(ve.call), "the error is discarded although the value is used: a failure here can never reach the caller")
+				r.bad(key, c.ipos(ve.call), "the error is discarded (or overwritten before it is looked at) although the call's result is used: a failure here can never reach the caller")
 				continue
 			}
 			ok, why := t.errSentOnAllPaths(fi, ve.err)
@@ -1874,6 +1875,6 @@ func hashProperties() []*propertySpec {
 			Explanation: "Schedules and fault sequences are covered by shape conditions on the fixed producer/jobs/workers/results/collector topology recovered from the SSA form: CC1 (no dereference of a value whose paired error is non-nil or discarded), CC2 (every worker error is sent on all paths), CC3 (nil-error return guarded by the received errors), CC4 (Done deferred at entry, Add(1) before each go in the same iteration), CC5 (single close of jobs by the sole producer after the last send on every path; close of results after Wait), CC6 (receive loops leave only on channel-closed), CC7 (no shared writable memory), CC8 (>= 1 worker). CC4-CC8 together with HS3 are sufficient for deadlock-, leak- and race-freedom of this topology under any schedule: every worker terminates iff jobs is closed and drained; jobs is closed after finitely many sends, each of which is matched because >= 1 worker loops until closed; each worker's sends are matched because the collector drains until closed; results is closed exactly when all workers are done. A different topology makes the check undecided, not green.",
 			NotCovered:  []string{"panics inside the standard library", "liveness if the file system blocks a read forever"},
 			Assumptions: trusted,
-			Rules:       []func(*Ctx) *rule{ruleCC1, ruleCC2, ruleCC3, ruleCC4, ruleCC5, ruleCC6, ruleCC7, ruleHS4("CC8")}},
+			Rules:       []func(*Ctx) *rule{ruleCC1, ruleCC2, ruleCC3, ruleCC4, ruleCC5, ruleCC6, ruleCC7, ruleHS4("CC8"), ruleCC9}},
 	}
 }
